@@ -71,6 +71,8 @@ inductive Req where
   | get (k : Nat)
   | weight
   | upsert (k : Nat) (v : Option Nat) (w : Option Int) (ttl : Option Nat) (rm : Bool)
+  | getRef (k : Nat)            -- get_ref: the store shard's read guard outlives `mark_key_accessed`
+  | shutdown
   deriving Repr, Inhabited
 
 /-- where a client stands -/
@@ -90,6 +92,19 @@ inductive CPc where
   | upTtlDelete (id : Nat) (e : Nat) (uw : Option Int)                                      -- ttl.delete
   | upTtlRemove (id : Nat) (old new : Nat) (uw : Option Int)                                -- ttl.update.remove
   | upTtlInsert (id : Nat) (new : Nat) (uw : Option Int)                                    -- ttl.update.insert
+  | refStore (k : Nat)                                          -- store.get of get_ref (takes the shard's read guard on a hit)
+  | refPool (k v : Nat)                                         -- pool.add, holding the store shard's read guard
+  | shutCas                                                     -- shutdown.cas
+  | shutSendCmd                                                 -- cmd.send of `Shutdown`
+  | shutSendBuf                                                 -- buf.send_shutdown
+  | shutConsumerFlag                                            -- shutdown.consumer_flag
+  | shutTickerFlag                                              -- shutdown.ticker_flag
+  | shutStoreClear                                              -- shutdown.store_clear
+  | shutKwClear                                                 -- shutdown.kw_clear
+  | shutWuZero                                                  -- shutdown.wu_zero
+  | shutAfClear                                                 -- shutdown.af_clear
+  | shutStatsClear                                              -- shutdown.stats_clear
+  | shutTtlClear                                                -- shutdown.ttl_clear
   deriving Repr, Inhabited
 
 inductive Tid where
@@ -104,6 +119,8 @@ structure BState where
   res : List (List Out) := []        -- results of completed client calls, per client, latest first
   wuOwner : Option Tid := none       -- owner of the `weight_used` lock across schedule points
   ttlOwner : Option Nat := none      -- TTL shard whose lock the sweeper owns across schedule points
+  storeReaders : List (Nat × Nat) := []   -- (client, store shard): read guards of `get_ref` kept across `pool.add`
+  storeShard : List (Nat × Nat) := []     -- key ↦ index of its store shard (DashMap's random hasher: a configuration input)
   deriving Repr
 
 def BState.init (cfg : Cfg) (now : Nat) (seeds : List Nat) (clients : Nat) : BState :=
@@ -120,6 +137,12 @@ def rejectCmd (b : BState) (h : Option Nat) (st : Status) : BState :=
 def wuFree (b : BState) (t : Tid) : Bool := b.wuOwner.isNone || b.wuOwner == some t
 
 def ttlFree (b : BState) (shard : Nat) : Bool := b.ttlOwner != some shard
+
+def storeShardOf (b : BState) (k : Nat) : Nat := (AMap.get? b.storeShard k).getD 0
+
+/-- a write to the store shard of key `k` by thread `t` has to wait while another thread keeps a read guard on that shard -/
+def storeWritable (b : BState) (k : Nat) (t : Option Nat) : Bool :=
+  !(b.storeReaders.any (fun p => p.2 == storeShardOf b k && some p.1 != t))
 
 /-- the pure part of `create_space`'s loop after a (re)fill: exit, pop a victim, or find the sample dry -/
 def loopDecide (b : BState) (c : PutCmd) (incEst : Nat) (sample : List SKey) (space : Int) (o : Oracle) :
@@ -158,7 +181,9 @@ def workerAct (b : BState) (o : Oracle) : Except String (BState × Oracle) :=
        | .putTtl id hash w k v t => .ok ({ b1 with w := .present { id := id, hash := hash, w := w, k := k, v := v, ttl := some t, h := h } }, o)
        | .updateWeight id w => .ok ({ b1 with w := .update id w h }, o)
        | .delete k => .ok ({ b1 with w := .delStore k h }, o)
-       | .shutdown => .ok ({ (finishCmd b1 h .accepted) with w := .drain }, o))
+       | .shutdown =>
+         let b2 := finishCmd b1 h .accepted
+         .ok ({ b2 with w := .drain, g := { b2.g with worker := .draining } }, o))
   | .drain =>
     (match g.queue with
      | [] => .error "not enabled: the command queue is empty"
@@ -188,7 +213,8 @@ def workerAct (b : BState) (o : Oracle) : Except String (BState × Oracle) :=
     else .ok ({ b with g := { g with adm := { g.adm with used := g.adm.used - wk.weight } }, wuOwner := some .worker,
                        w := .evStore c incEst sample id wk }, o)
   | .evStore c incEst sample id wk =>
-    .ok ({ b with g := applyEvict g (id, wk.key, wk.weight), wuOwner := none, w := .evSpace c incEst sample }, o)
+    if !storeWritable b wk.key none then .error "not enabled: the store shard is read-locked"
+    else .ok ({ b with g := applyEvict g (id, wk.key, wk.weight), wuOwner := none, w := .evSpace c incEst sample }, o)
   | .evSpace c incEst sample =>
     if !wuFree b .worker then .error "not enabled: weight_used is locked"
     else .ok ({ b with w := .fill c incEst sample (g.adm.max - g.adm.used) }, o)
@@ -208,7 +234,8 @@ def workerAct (b : BState) (o : Oracle) : Except String (BState × Oracle) :=
                                       stats := { g.stats with weightAdded := (g.stats.weightAdded + c.w.toNat) % u64Mod } },
                        w := .storePut c }, o)
   | .storePut c =>
-    (match c.ttl with
+    if !storeWritable b c.k none then .error "not enabled: the store shard is read-locked"
+    else (match c.ttl with
      | none =>
        let g1 := { g with store := g.store.set c.k { value := c.v, id := c.id, expiry := none, soft := false },
                           stats := { g.stats with keysAdded := g.stats.keysAdded + 1 } }
@@ -229,7 +256,8 @@ def workerAct (b : BState) (o : Oracle) : Except String (BState × Oracle) :=
       | .done g1 st _ _ _ => .ok (finishCmd { b with g := g1 } h st, o)
       | .panicked g1 _ => .ok ({ b with w := .dead, g := { g1 with worker := .dead, queue := [] } }, o))
   | .delStore k h =>
-    (match g.store.get? k with
+    if !storeWritable b k none then .error "not enabled: the store shard is read-locked"
+    else (match g.store.get? k with
      | none => .ok (finishCmd b h (.rejected .keyDoesNotExist), o)
      | some e =>
        let g1 := { g with store := g.store.del k, stats := { g.stats with keysDeleted := g.stats.keysDeleted + 1 } }
@@ -289,7 +317,8 @@ def sweeperAct (b : BState) (visit : Option Nat) : Except String BState :=
     else .ok { b with g := { g with adm := { g.adm with used := g.adm.used - wk.weight } }, wuOwner := some .sweeper,
                       sw := .store now shard rest id wk }
   | .store now shard rest id wk =>
-    .ok (sweepNext { b with g := applyEvict g (id, wk.key, wk.weight), wuOwner := none } now shard rest)
+    if !storeWritable b wk.key none then .error "not enabled: the store shard is read-locked"
+    else .ok (sweepNext { b with g := applyEvict g (id, wk.key, wk.weight), wuOwner := none } now shard rest)
   | .fin => .ok { b with sw := .begin, g := { g with sweeperAlive := g.sweeperKeep } }
 
 def setClient (b : BState) (i : Nat) (pc : CPc) : BState := { b with cl := b.cl.set i pc }
@@ -332,7 +361,9 @@ def clientAct (b : BState) (i : Nat) (o : Oracle) : Except String (BState × Ora
       if g.shutting then
         (match r with
          | .get _ => .ok (finishCall b i (.value none), o)
+         | .getRef _ => .ok (finishCall b i (.value none), o)
          | .weight => .ok (setClient b i .weightRead, o)
+         | .shutdown => .ok (setClient b i .shutCas, o)
          | _ => .ok (finishCall b i .err, o))
       else (match r with
         | .putW k v w ttl =>
@@ -341,7 +372,9 @@ def clientAct (b : BState) (i : Nat) (o : Oracle) : Except String (BState × Ora
         | .delete k => .ok (setClient b i (.delMark k), o)
         | .get k => .ok (setClient b i (.getStore k), o)
         | .weight => .ok (setClient b i .weightRead, o)
-        | .upsert k v w ttl rm => .ok (setClient b i (.upUpdate k v w ttl rm), o))
+        | .upsert k v w ttl rm => .ok (setClient b i (.upUpdate k v w ttl rm), o)
+        | .getRef k => .ok (setClient b i (.refStore k), o)
+        | .shutdown => .ok (setClient b i .shutCas, o))
     | .putPresent k v w ttl =>
       if g.store.contains k then .ok (spotFinish b i (.rejected .keyAlreadyExists), o)
       else .ok (setClient b i (.idNext k v w ttl), o)
@@ -353,6 +386,7 @@ def clientAct (b : BState) (i : Nat) (o : Oracle) : Except String (BState × Ora
       .ok (setClient { b with g := { g with nextId := id + 1 } } i (.send cmd), o)
     | .send cmd => (match sendAct b i cmd with | .ok b' => .ok (b', o) | .error m => .error m)
     | .delMark k =>
+      if !storeWritable b k (some i) then .error "not enabled: the store shard is read-locked" else
       let store := match g.store.get? k with
         | some e => g.store.set k { e with soft := true }
         | none => g.store
@@ -372,6 +406,7 @@ def clientAct (b : BState) (i : Nat) (o : Oracle) : Except String (BState × Ora
       if !wuFree b (.client i) then .error "not enabled: weight_used is locked"
       else .ok (finishCall b i (.weight g.adm.used), o)
     | .upUpdate k v w ttl rm =>
+      if !storeWritable b k (some i) then .error "not enabled: the store shard is read-locked" else
       let uw : Option Int := match w with
         | some x => some x
         | none => v.map (fun val => g.cfg.weightOf val ttl.isSome)
@@ -412,6 +447,44 @@ def clientAct (b : BState) (i : Nat) (o : Oracle) : Except String (BState × Ora
     | .upTtlInsert id new uw =>
       if !ttlFree b (shardOf g.cfg new) then .error "not enabled: the expiry shard is locked"
       else .ok (upAfterIndex { b with g := ttlPut g id new } i id uw, o)
+    | .refStore k =>
+      (match g.store.get? k with
+       | some e =>
+         if e.alive g.now then
+           .ok (setClient { b with g := { g with stats := { g.stats with hits := g.stats.hits + 1 } },
+                                   storeReaders := (i, storeShardOf b k) :: b.storeReaders } i (.refPool k e.value), o)
+         else .ok (finishCall { b with g := { g with stats := { g.stats with misses := g.stats.misses + 1 } } } i (.value none), o)
+       | none => .ok (finishCall { b with g := { g with stats := { g.stats with misses := g.stats.misses + 1 } } } i (.value none), o))
+    | .refPool k v =>
+      (match poolAdd g (g.cfg.hashOf k) o with
+       | .ok (g1, o') => .ok (finishCall { b with g := g1, storeReaders := b.storeReaders.filter (fun p => p.1 != i) } i (.value (some v)), o')
+       | .error m => .error m)
+    | .shutCas =>
+      -- compare_exchange(false, true): only the first caller goes on
+      if g.shutting then .ok (finishCall b i .none, o)
+      else .ok (setClient { b with g := { g with shutting := true } } i .shutSendCmd, o)
+    | .shutSendCmd =>
+      if g.worker = .dead then .ok (setClient b i .shutSendBuf, o)
+      else if g.queue.length ≥ g.cfg.cmdCap then .error "not enabled: the command queue is full"
+      else .ok (setClient { b with g := { g with queue := g.queue ++ [(.shutdown, none)] } } i .shutSendBuf, o)
+    | .shutSendBuf =>
+      if !g.consumerAlive then .ok (setClient b i .shutConsumerFlag, o)
+      else if g.bufq.length ≥ g.cfg.bufChanCap then .error "not enabled: the buffer queue is full"
+      else .ok (setClient { b with g := { g with bufq := g.bufq ++ [.shutdown] } } i .shutConsumerFlag, o)
+    | .shutConsumerFlag => .ok (setClient { b with g := { g with consumerKeep := false } } i .shutTickerFlag, o)
+    | .shutTickerFlag => .ok (setClient { b with g := { g with sweeperKeep := false } } i .shutStoreClear, o)
+    | .shutStoreClear =>
+      if b.storeReaders.any (fun p => p.1 != i) then .error "not enabled: a store shard is read-locked"
+      else .ok (setClient { b with g := { g with store := [] } } i .shutKwClear, o)
+    | .shutKwClear => .ok (setClient { b with g := { g with adm := { g.adm with kw := [] } } } i .shutWuZero, o)
+    | .shutWuZero =>
+      if !wuFree b (.client i) then .error "not enabled: weight_used is locked"
+      else .ok (setClient { b with g := { g with adm := { g.adm with used := 0 } } } i .shutAfClear, o)
+    | .shutAfClear => .ok (setClient { b with g := { g with lfu := g.lfu.clear } } i .shutStatsClear, o)
+    | .shutStatsClear => .ok (setClient { b with g := { g with stats := {} } } i .shutTtlClear, o)
+    | .shutTtlClear =>
+      if b.ttlOwner.isSome then .error "not enabled: an expiry shard is locked"
+      else .ok (finishCall { b with g := { g with ttl := [] } } i .none, o)
 
 /-- a client issues a request (enabled only when idle) -/
 def issue (b : BState) (i : Nat) (r : Req) : Except String BState :=
